@@ -16,7 +16,9 @@ MANIFEST = dict(
          "appended or placed first, all other tokens and attributes undisturbed) under the guard plainOrSafe, and "
          "C16_add_has_full_is_false (F-C16: the unguarded law is false, witnessed against the source's escape "
          "table); C16_remove_total / _spec / _token / _drops / _noop / _others (every occurrence of exactly that token "
-         "removed, others in order, attribute dropped iff none remain); C16_addStyle_ok / _text / _rej / "
+         "removed, others in order, attribute dropped iff none remain), C16_remove_keeps_mark (what remains of an "
+         "HTML()-marked class value stays HTML()-marked, so it is not escaped a second time: C16_remove_rendered_once; "
+         "C16_remove_mark_fails_for_pinned is the pinned code's loss of the mark, F-C16b); C16_addStyle_ok / _text / _rej / "
          "_rej_unchanged / _others; C16_css_spec / _cssKey_spec / _cssKey_spec_perchar / _cssKey_no_underscore / "
          "_css_accepted / _css_addStyle; C16_returns_self. Tie: exact equality of attrs (with str/HTML kind), "
          "has_class results, return identity and css() output on histories of <= 5 calls and css keyword sets, "
@@ -132,14 +134,51 @@ def rand_css_val(rng):
     return ("ct", "")
 
 
+_OWN_LABEL = {
+    "class_html_marked_and_token_has_escaped_char":
+        lambda l: l.endswith("!g") and l.split(":")[1] in ("add_has!g", "add_order!g"),
+    "class_html_marked_remove_class_loses_mark": lambda l: l.split(":")[1] == "remove_keeps_mark",
+}
+
+
+def _recorded() -> list:
+    return [k["matcher"] for k in core.load_known().get("findings", []) if k["property"] == PID and k["matcher"] in _OWN_LABEL]
+
+
+def _labels_match(f, name: str) -> bool:
+    """every failing clause belongs to a recorded finding's class and at least one to the finding `name`"""
+    if f.kind != "property" or not f.detail.startswith("F "):
+        return False
+    labels = f.detail.split()[1:]
+    rec = set(_recorded()) | {name}
+    return (bool(labels) and all(any(_OWN_LABEL[n](l) for n in rec) for l in labels)
+            and any(_OWN_LABEL[name](l) for l in labels))
+
+
 def m_fc16(f) -> bool:
     """failing input inside the recorded finding's class: every failing clause of the executable statement is an
     add_class law on a step where the class value is HTML()-marked and the token contains a character the merge
     escapes (the Lean guard `plainOrSafe` is false there: the driver marks such clauses `!g`)"""
-    if f.kind != "property" or not f.detail.startswith("F "):
+    return _labels_match(f, "class_html_marked_and_token_has_escaped_char")
+
+
+WITNESS_MARK = chist_line([("class", ("h", "a&amp;b c"))], [("rc", "c")])
+
+
+def m_fc16b(f) -> bool:
+    """input class of F-C16b (used only if known_findings.json records it instead of the repair
+    fixes/C16-remove-class-keeps-html.patch): remove_class on an HTML()-marked class value stores a plain string"""
+    if not f.line.startswith("chist "):
         return False
-    labels = f.detail.split()[1:]
-    return bool(labels) and all(l.endswith("!g") and l.split(":")[1] in ("add_has!g", "add_order!g") for l in labels)
+    if f.kind == "property":
+        return _labels_match(f, "class_html_marked_remove_class_loses_mark")
+    from wire import Toks, p_str, p_list, p_attr
+    from ops_attrs import p_cstep
+    t = Toks(f.line[len("chist "):])
+    p_str(t)
+    attrs = p_list(t, p_attr)
+    steps = p_list(t, p_cstep)
+    return any(k == "class" and v[0] == "h" for k, v in attrs) and any(s[0] == "rc" for s in steps)
 
 
 def run(tier: str) -> int:
@@ -157,6 +196,10 @@ def run(tier: str) -> int:
                                   ("as", ("str", "font-size: 12px;"), True), ("rc", "foo"), ("rc", "baz"), ("hc", "baz")]),
                   True, "corpus"))
     cases.append((chist_line([("class", ("h", "&amp;c1"))], [("ac", "&c2", False), ("ac", "&c3", True)]), True, "corpus"))
+    # F-C16b: what remains after remove_class keeps the HTML() mark (also when nothing was removed)
+    cases.append((WITNESS_MARK, True, "corpus"))
+    cases.append((chist_line([("class", ("h", "a&amp;b c"))], [("rc", "zzz"), ("hc", "c"), ("rc", "c"), ("ac", "d", False), ("rc", "a&amp;b")]),
+                  True, "corpus"))
 
     # 1. exhaustive: every history of <= 2 calls over 10 tokens (+ styles) from 10 initial class values
     pool = step_pool(TOKENS, STYLES[:5])
@@ -265,8 +308,11 @@ def run(tier: str) -> int:
         raise core.Infra("str.isspace(' ') is false in this interpreter")
     ck.correspond(holds=True)
     # the recorded finding's witness is replayed on every run: a stale record is reported, not hidden
-    known = [k for k in core.load_known().get("findings", []) if k["property"] == PID]
-    wit = [f for f in ck.failures if f.kind == "property" and f.line == WITNESS]
-    if known and not (wit and m_fc16(wit[0])):
-        print(f"WARNING: property={PID} stale known finding {known[0]['id']}: its witness no longer fails")
-    return ck.finish(matchers={"class_html_marked_and_token_has_escaped_char": m_fc16}, shrink=describe(ck))
+    known = {k["matcher"]: k for k in core.load_known().get("findings", []) if k["property"] == PID}
+    for name, witness, m in (("class_html_marked_and_token_has_escaped_char", WITNESS, m_fc16),
+                             ("class_html_marked_remove_class_loses_mark", WITNESS_MARK, m_fc16b)):
+        wit = [f for f in ck.failures if f.kind == "property" and f.line == witness]
+        if name in known and not (wit and m(wit[0])):
+            print(f"WARNING: property={PID} stale known finding {known[name]['id']}: its witness no longer fails")
+    return ck.finish(matchers={"class_html_marked_and_token_has_escaped_char": m_fc16,
+                               "class_html_marked_remove_class_loses_mark": m_fc16b}, shrink=describe(ck))
